@@ -41,7 +41,46 @@ pub fn replay(drv: &mut Driver, rep: &mut Report, lines: &[String]) {
     }
 }
 
+/// the same products under a SECOND build configuration of this machine (`harness-native`, `-C target-cpu=native`: code
+/// selected by `#[cfg(target_feature = …)]` is compiled there): the product is a function of the operands, not of the build
+fn second_build(o: &Opts, rep: &mut Report) {
+    use std::io::{BufRead, BufReader, Write};
+    let bin = std::env::var("VERIF_SLNATIVE").unwrap_or_else(|_| "/verif/.build/cargo-native/release/slnative".into());
+    if !std::path::Path::new(&bin).exists() { rep.notes.push(format!("second build configuration not compared: {bin} is missing")); return; }
+    let mono = |i: usize| { let mut x = [0u8; 16]; x[i / 8] = 1 << (i % 8); x };
+    let mut pairs: Vec<([u8; 16], [u8; 16])> = vec![];
+    for i in 0..128 { for j in 0..128 { pairs.push((mono(i), mono(j))); } }
+    let mut rng = case_rng(o.seed, "c19-native");
+    for k in 0..(if o.tier == "thorough" { 20000 } else { 2000 }) {
+        let (mut a, mut b) = ([0u8; 16], [0u8; 16]); rng.fill_bytes(&mut a); rng.fill_bytes(&mut b);
+        if k % 5 == 0 { b = [0u8; 16]; b[k % 16] = 1; } if k % 7 == 0 { a = [0xff; 16]; }
+        pairs.push((a, b));
+    }
+    let Ok(mut child) = std::process::Command::new(&bin).stdin(std::process::Stdio::piped()).stdout(std::process::Stdio::piped()).spawn() else { rep.notes.push("second build configuration: helper could not be started".into()); return; };
+    let mut stdin = child.stdin.take().unwrap();
+    let input: String = pairs.iter().map(|(a, b)| format!("{} {}\n", hex::encode(a), hex::encode(b))).collect();
+    let writer = std::thread::spawn(move || { let _ = stdin.write_all(input.as_bytes()); });
+    let out = BufReader::new(child.stdout.take().unwrap());
+    let mut n = 0usize;
+    for (line, (a, b)) in out.lines().zip(pairs.iter()) {
+        let Ok(line) = line else { break };
+        n += 1;
+        let here = hex::encode(gfmul(a, b));
+        if line.trim() != here {
+            let req = format!("gf mul {} {}", hex::encode(a), hex::encode(b));
+            let idx = rep.case("second-build-configuration", Some(&req));
+            rep.pred_fail(Failure { stream: "second-build-configuration".into(), index: idx, request: vec![req], impl_out: format!("target-cpu=native build: {}", line.trim()), model_out: format!("default build: {here}"),
+                key: "gf128:build-configuration".into(), what: "the product differs between the default build and the build with the host's target features enabled".into() });
+        }
+    }
+    let _ = writer.join(); let _ = child.wait();
+    for _ in 0..n.min(1) { rep.case("second-build-configuration", Some("summary")); }
+    *rep.histogram.entry("second-build-configuration:pairs-compared".into()).or_insert(0) += n as u64;
+    if n != pairs.len() { rep.notes.push(format!("second build configuration: helper answered {n} of {} pairs", pairs.len())); }
+}
+
 pub fn run(o: &Opts, drv: &mut Driver, rep: &mut Report) {
+    second_build(o, rep);
     let thorough = o.tier == "thorough";
     let scale = o.scale;
     let mono = |i: usize| { let mut x = [0u8; 16]; x[i / 8] = 1 << (i % 8); x };
